@@ -29,7 +29,7 @@ func drawnOrLaidOut(cs *semCase, r *Result, id string) *OpResult {
 func checkC02(c *Ctx) {
 	c.Ev.Rule = "one case = one simulated run of a corpus scenario under (restart pattern = subset of active pages-probes) x (map-order plan) x (engine, input mode, hints); non-trivial = at least one restart, permuted range site or non-default configuration; distinct = distinct (scenario, config, plan) tuple. Oracles: exact-once + in-order per flow, repetition only for CSS-defined repeats, laid-out TextBox words = drawn words per page, same words on the same pages as the restart-free twin"
 	c.Ev.Assume = []string{"corpus documents only (the input quantifier of C02 is not searched)", "expected words and flow membership come from the generator's construction, not from the implementation", "Ahem font: twin and probe variant have identical geometry"}
-	d := &semDriver{c: c, perScenarioQuick: 10, perScenarioThorough: 150,
+	d := &semDriver{c: c, perScenarioQuick: 40, perScenarioThorough: 400,
 		use:     func(sc *Scenario) bool { return sc.Expect.Conserve },
 		oracles: semOracles("C02")}
 	d.run()
@@ -38,7 +38,7 @@ func checkC02(c *Ctx) {
 func checkC12(c *Ctx) {
 	c.Ev.Rule = "one case = one simulated run of a corpus scenario under (restart pattern) x (map-order plan) x (engine, input mode); non-trivial/distinct as for C02. Oracles: AddPage sizes = @page sizes for the page's selector set, forced breaks start a page of the requested side, counter(page)/counter(pages) in margin boxes and in-flow probes equal position/total, no main-flow line below the content box, plain pages are full"
 	c.Ev.Assume = []string{"corpus documents only", "page 1 is a right page (LTR)", "geometry clauses use the boxes returned by layout.Layout for the same inputs"}
-	d := &semDriver{c: c, perScenarioQuick: 10, perScenarioThorough: 150,
+	d := &semDriver{c: c, perScenarioQuick: 40, perScenarioThorough: 400,
 		use:     func(sc *Scenario) bool { return sc.Expect.PageW > 0 && (sc.Expect.Margin || len(sc.Expect.Forced) > 0) },
 		oracles: semOracles("C12")}
 	d.run()
@@ -47,7 +47,7 @@ func checkC12(c *Ctx) {
 func checkC14(c *Ctx) {
 	c.Ev.Rule = "one case = one simulated run of a corpus scenario under (map-order plan) x (zoom) x (restart pattern) x (0-1 fetch fault on a resource) x (document written once or twice); the protocol monitor runs inside the recording backend on every call; non-trivial/distinct as for C02. Rules: one AddPage per page in order before CreateAnchors, every float finite, Paint/Clip preceded by path construction, fonts registered before use, internal links name anchors defined exactly once (first element with the id), dangling links dropped, outline consistent with levels and pages, metadata unchanged"
 	c.Ev.Assume = []string{"corpus documents only", "the monitor's rules are taken from the property statement; Save/Restore do not save the path"}
-	d := &semDriver{c: c, perScenarioQuick: 8, perScenarioThorough: 120, withZoom: true, withFaults: true, withRewrite: true,
+	d := &semDriver{c: c, perScenarioQuick: 30, perScenarioThorough: 300, withZoom: true, withFaults: true, withRewrite: true,
 		use:     func(sc *Scenario) bool { return true },
 		oracles: semOracles("C14")}
 	d.run()
